@@ -295,6 +295,14 @@ def main(ck):
             want = fn(xr.DataArray(data.copy(), dims=["t", centred], coords={"t": [0, 1, 2]}), centred)
             if tuple(want.dims) != tuple(r.dims) or r.shape[:-1] != want.shape[:-1]:
                 ck.fail("values_differ_from_plain_xarray", case, info, detail="dims/shape %s %s vs %s %s" % (r.dims, r.shape, want.dims, want.shape))
+    # directed: uxarray's name-based operations after the grid dimension was moved away from the last position
+    closed = [meshgen.gen_mesh(rng, max_ops=0, partial=False, seeds=["octa", "icosa", "cube"]) for _ in range(2)]
+    cg = [mk_grid(m) for m in closed]
+    for centred in ("n_face", "n_node"):
+        for pre in ([("x", "T")], [("x", "transpose")], [("x", "expand_dims"), ("x", "transpose")], [("x", "cumsum"), ("x", "T")]):
+            for tail in (("dual",), ("isel_grid",), ("subset",)):
+                ck.note_case(("directed", centred, pre, tail))
+                run_program(ck, rng, closed, cg, list(pre) + [tail, ("x", "add")], centred, [("t", 3)], routes, stats, model_lines, keep)
     for pi in range(n_prog):
         ms = [meshgen.gen_mesh(rng, max_ops=rng.choice([3, 6]), partial=rng.random() < 0.25) for _ in range(2)]
         grids = [mk_grid(m) for m in ms]
